@@ -1478,6 +1478,13 @@ for _pid in ("C01", "C02", "C08"):
         "regex_is_lib, all_is_lib, all_matchAll_is_lib for the four leaf kinds; staticTree_match_is_lib (Gen/StaticTreeCode.lean), regexTree_match_is_lib, holeTree_match_is_lib, "
         "next_is_lib and C08AllTreeCode.matchAll_is_lib for the subtrees) — what remains between the levels is Go's dynamic dispatch "
         "itself.")
+for _pid in ("C07", "C10"):
+    PROPS[_pid]["code_modules"] = PROPS[_pid]["code_modules"] + ["Flamego.Props.C10JoinCode"]
+    PROPS[_pid]["level_text"] = PROPS[_pid]["level_text"] + (
+        " The dispatcher and the matcher are joined in Props/C10JoinCode: the parameter of the translated router.ServeHTTP that "
+        "stands for tree.Match is instantiated with the translated baseTree.Match (Gen/BaseTreeCode.lean), which "
+        "Props/C02BaseTreeCode proves to be the model's Node.match — so the translated dispatcher running the translated matcher makes "
+        "exactly the one call the model's Router.serve decides (code_matcher_agrees, serve_code_matcher).")
 _ALL = ['C01', 'C02', 'C03', 'C04', 'C05', 'C06', 'C07', 'C08', 'C09', 'C10', 'C11', 'C12', 'C13', 'C14', 'C15', 'C16', 'C17', 'C18']
 NOT_APPLICABLE = [
     {"property_id": p, "reason": "check not built yet in this revision (work in progress; see DESIGN.md §11 for the plan)"}
